@@ -17,6 +17,7 @@ The main chain is seeded into initbuild's cache so that `initbuild.run_in` / `ex
 """
 from __future__ import annotations
 
+import asyncio
 import inspect
 import json
 import types
@@ -51,6 +52,28 @@ def _body_extras(cs, ns):
         ns["__delattr__"] = __delattr__
 
 
+# ------------------------------------------------------------------------------------------ exception roots
+class Quit(BaseException):
+    """a user's own exception root outside the Exception subtree"""
+
+
+class AppError(Exception):
+    """a user's own exception root inside the Exception subtree"""
+
+
+# classes[0]["exc_root"] (harness-only; the model sees one `builtin` row whose __setattr__/__delattr__ are
+# BaseException's): initbuild's builtins plus user-made / stdlib roots on both sides of `Exception`
+EXC_ROOTS = dict(ib.EXC_ROOTS, CancelledError=asyncio.CancelledError, Quit=Quit, AppError=AppError)
+OUTSIDE_EXCEPTION = sorted(k for k, v in EXC_ROOTS.items() if not issubclass(v, Exception))
+
+
+def root_of(hspec):
+    c0 = hspec["classes"][0]
+    if not c0.get("exc_base"):
+        return object
+    return EXC_ROOTS[c0.get("exc_root") or "Exception"]
+
+
 # ------------------------------------------------------------------------------------------ structure
 def entries(hspec):
     """definition order: [(role, spec, base_entry_indices)], role in main|tail|mixin"""
@@ -78,12 +101,12 @@ def _bases(bases, done):
 
 
 def _twins(hspec):
-    root = Exception if hspec["classes"][0].get("exc_base") else object
+    root = root_of(hspec)
     ents = entries(hspec)
     tw = []
     for role, cs, bases in ents:
         if role == "root":
-            tw.append(Exception)
+            tw.append(root)
             continue
         b = (object,) if role == "mixin" else _bases(bases, tw)
         tw.append(type("T", b, {}))
@@ -305,14 +328,14 @@ def build(hspec):
     if len(_CACHE) > 1200:
         _CACHE.clear()
         common.purge_linecache()
-    root = Exception if hspec["classes"][0].get("exc_base") else object
+    root = root_of(hspec)
     ents = entries(hspec)
     done, main = [], []
     err = None
     for i, (role, cs, bases) in enumerate(ents):
         try:
             if role == "root":
-                cls = Exception
+                cls = root
             elif role == "mixin":
                 cls = _build_mixin(cs, root is not object)
             else:
